@@ -68,6 +68,9 @@ func (s *c08State) register(l *Live) {
 		c.Violate("new-token-block-count", "", s.wit(nil))
 		return
 	}
+	if sealedOnWire := d.Env.ProofKind != wire.ProofSecret; sealedOnWire != l.T.Sealed {
+		c.Violate("new-token-proof-kind", fmt.Sprintf("the token was made by %s (sealed=%v) but its serialized form carries a %s", l.Origin, l.T.Sealed, map[bool]string{true: "final signature", false: "next secret"}[sealedOnWire]), s.wit(nil))
+	}
 	for bi, got := range d.Blocks {
 		want := l.T.Blocks[bi]
 		gf, gr, gc := got.SortedKeys()
